@@ -98,6 +98,7 @@ type checkerContext struct {
 // receiverInfo contains information about a method's receiver
 // @immutable
 type receiverInfo struct {
+	obj      types.Object // the receiver variable itself
 	name     string
 	typeName string
 	pkgPath  string
@@ -126,6 +127,7 @@ func extractReceiverInfo(pass *analysis.Pass, funcDecl *ast.FuncDecl) *receiverI
 	}
 
 	return &receiverInfo{
+		obj:      pass.TypesInfo.Defs[recvField.Names[0]],
 		name:     recvName,
 		typeName: typeInfo.TypeName,
 		pkgPath:  typeInfo.PkgPath,
@@ -380,8 +382,8 @@ func checkReceiverIncDec(
 		return nil
 	}
 
-	// Check if the identifier is the receiver
-	if ident.Name != ctx.currentReceiver.name {
+	// Check if the identifier is the receiver (the same object, not just the same name)
+	if ident.Name != ctx.currentReceiver.name || ctx.pass.TypesInfo.Uses[ident] != ctx.currentReceiver.obj {
 		return nil
 	}
 
@@ -500,8 +502,8 @@ func checkReceiverReassignment(
 		return nil
 	}
 
-	// Check if the identifier is the receiver
-	if ident.Name != ctx.currentReceiver.name {
+	// Check if the identifier is the receiver (the same object, not just the same name)
+	if ident.Name != ctx.currentReceiver.name || ctx.pass.TypesInfo.Uses[ident] != ctx.currentReceiver.obj {
 		return nil
 	}
 
